@@ -2,7 +2,7 @@
 bit level); tags decode to the variant the writer meant; every compress path (incl. raw fallback)
 has its inverse on the decompress side (R-SYM)."""
 from vlib import fixtures
-from rules import pair, sym, tagmap, tagkind, scratch
+from rules import pair, sym, tagmap, tagkind, scratch, trunc
 from vlib.mir import Fn, op_local
 from vlib.run import Broken
 
@@ -31,7 +31,7 @@ def arm_pair(ctx, fx, w, r, enums, label, rule="R-PAIR"):
 
 def run(ctx):
     fx = ctx.facts("default")
-    fixtures.run(ctx, ['pair', 'tagkind', 'scratch'])
+    fixtures.run(ctx, ['pair', 'tagkind', 'scratch', 'varint'])
     ev = 0
     w, r = need(fx, PZ + "apply_compression_strategy"), need(fx, PZ + "decompress_match")
     ctx.analysed_fns.update([w.id, r.id])
@@ -114,6 +114,9 @@ def run(ctx):
     ctx.instance("R-SCRATCH.structs", len(structs))
     ctx.floor("R-SCRATCH.structs", 40)
     ctx.floor("R-SCRATCH.producers", 1)
+    # size fields written as LEB128: the continuation test sits exactly at the 7-bit limit
+    trunc.writer_threshold(ctx, fx, [f for f in fx.files() if f.startswith('src/compression/')])
+    ctx.floor('R-VARINT.threshold.writers', 1)
     ctx.floor("R-SYM.pairs", 8)
     return dict(
         level_note="decides layout/tag agreement per match type and store/load path symmetry; match finding, the suffix-array "
